@@ -389,7 +389,13 @@ func (f *frame) exec(in ssa.Instruction, st *State, cur string) (string, error) 
 		return f.runDefers(st, cur)
 
 	case *ssa.Send:
-		B.note("channel send has no modelled effect")
+		// a channel send is a ghost trace event Send(channel, value); blocking is not modelled
+		v := "0"
+		if B.sortOf(x.X.Type()) == "Int" {
+			v = f.termOf(x.X)
+		}
+		st.trace = B.define("trace", "(Array Int Event)", fmt.Sprintf("(store %s %s (ev_Send %s %s))", st.trace, st.ntrace, f.termOf(x.Chan), v))
+		st.ntrace = B.define("ntrace", "Int", fmt.Sprintf("(+ %s 1)", st.ntrace))
 		return cur, nil
 
 	case *ssa.Select:
